@@ -4,3 +4,4 @@
 pub mod dispatch;
 pub mod parsing;
 pub mod loops;
+pub mod promise;
